@@ -1,10 +1,14 @@
 pub mod addsub;
+pub mod div;
+pub mod mul;
 
 use crate::rec::Rec;
 
 pub fn run(name: &str, r: &mut Rec) -> bool {
     match name {
         "addsub" => addsub::run(r),
+        "div" => div::run(r),
+        "mul" => mul::run(r),
         _ => return false,
     }
     true
